@@ -57,9 +57,16 @@ pub mod dev {
     /// alignment of cursive links is wrong (both glyphs are shifted by entry.y - exit.y)
     pub const CURS_Y_CLEAR: u32 = 1 << 13;
 
-    pub const ALL: [u32; 14] = [
+    /// value records: the variation deltas of xPlacement / yPlacement (VariationIndex tables
+    /// behind xPlaDevice / yPlaDevice) are dropped when both static placements are zero
+    pub const VAR_PLACE_STATIC0: u32 = 1 << 14;
+    /// anchor format 3: the VariationIndex tables behind xDeviceOffset / yDeviceOffset are not
+    /// read; anchors keep their default coordinates at every location of the design space
+    pub const ANCHOR_VAR: u32 = 1 << 15;
+
+    pub const ALL: [u32; 16] = [
         PAIR_NO_SKIP, CTX_NO_SKIP, NESTED_FLAGS, YADV_DROP, MARK_FLAGS, MKMK_ANY, CURS_FLAGS, KERN_ASSIGN, KERN2_ARRAY,
-        MARKSET_NONMARK, POS_BASE_TWICE, SINGLE_EMPTY, CURS_X_ENTRY, CURS_Y_CLEAR,
+        MARKSET_NONMARK, POS_BASE_TWICE, SINGLE_EMPTY, CURS_X_ENTRY, CURS_Y_CLEAR, VAR_PLACE_STATIC0, ANCHOR_VAR,
     ];
 
     pub fn name(bit: u32) -> &'static str {
@@ -78,6 +85,8 @@ pub mod dev {
             SINGLE_EMPTY => "singlepos-empty-format-falls-through",
             CURS_X_ENTRY => "cursive-entry-anchor-x-ignored",
             CURS_Y_CLEAR => "cursive-y-wrong-when-rtl-flag-clear",
+            VAR_PLACE_STATIC0 => "placement-variation-dropped-when-static-zero",
+            ANCHOR_VAR => "anchor-variation-index-ignored",
             _ => "?",
         }
     }
@@ -155,6 +164,9 @@ pub struct Interp<'a> {
     pub gpos: Option<&'a GposModel>,
     pub kern: Option<(&'a KernModel, KernBytes<'a>)>,
     pub dev: u32,
+    /// normalised design-space location (raw F2Dot14 per axis) the run is shaped at; None = no
+    /// tuple given (default instance: static values only)
+    loc: Option<&'a [i16]>,
     glyphs: &'a [GlyphIn],
     out: Vec<GlyphOut>,
     /// glyph is the entry side of a cursive link
@@ -195,10 +207,6 @@ pub fn skip_reason(gdef: Option<&GdefModel>, f: &Flags, g: Gid, devs: u32) -> Op
     None
 }
 
-fn pt(a: &AnchorM) -> (i16, i16) {
-    (a.x, a.y)
-}
-
 impl<'a> Interp<'a> {
     pub fn new(
         gdef: Option<&'a GdefModel>,
@@ -212,11 +220,79 @@ impl<'a> Interp<'a> {
             gpos,
             kern,
             dev,
+            loc: None,
             glyphs,
             out: glyphs.iter().map(|_| GlyphOut::new()).collect(),
             cursive_target: vec![false; glyphs.len()],
             notes: Notes::default(),
         }
+    }
+
+    /// shape at a location of the variation space (VariationIndex tables then contribute
+    /// round(sum of region scalar x delta) from the GDEF ItemVariationStore)
+    pub fn at_location(mut self, loc: Option<&'a [i16]>) -> Interp<'a> {
+        self.loc = loc;
+        self
+    }
+
+    /// Delta a Device / VariationIndex table contributes. Hinting Device tables (formats 1-3)
+    /// apply to a ppem size, which a shaping call in font units does not have: no effect.
+    /// VariationIndex: the interpolated delta of the referenced delta set, rounded to an
+    /// integer ("Algorithm for interpolation of instance values"); without a location or
+    /// without a store there is nothing to add. A value too close to a rounding tie is not
+    /// asserted (the specification rounds half up, f32 arithmetic may land on either side).
+    fn var_delta(&mut self, d: &DevM) -> i32 {
+        match (d, self.loc, self.gdef.and_then(|g| g.ivs.as_ref())) {
+            (DevM::Var { outer, inner }, Some(loc), Some(ivs)) => match ivs.adjustment(*outer, *inner, loc) {
+                Some(x) => {
+                    let frac = x - x.floor();
+                    if (frac - 0.5).abs() < 0.02 {
+                        self.notes.ambiguous.insert("variation:rounding-tie");
+                    }
+                    let r = (x + 0.5).floor() as i32;
+                    if r != 0 {
+                        self.note("variation:delta-nonzero");
+                    } else {
+                        self.note("variation:delta-zero");
+                    }
+                    r
+                }
+                None => {
+                    self.notes.ambiguous.insert("variation:index-out-of-range");
+                    0
+                }
+            },
+            (DevM::Var { .. }, None, _) => {
+                self.note("variation:no-tuple");
+                0
+            }
+            (DevM::Hint { .. }, _, _) => {
+                self.note("device:hinting-table");
+                0
+            }
+            _ => 0,
+        }
+    }
+
+    /// anchor coordinates at the current location
+    fn anchor_pt(&mut self, a: &AnchorM) -> (i16, i16) {
+        if a.fmt != 3 || self.on(dev::ANCHOR_VAR) {
+            if a.fmt == 3 && a.dev.iter().any(|d| matches!(d, DevM::Var { .. })) {
+                self.note("anchor:variation-index");
+            }
+            return (a.x, a.y);
+        }
+        let dx = self.var_delta(&a.dev[0]);
+        let dy = self.var_delta(&a.dev[1]);
+        if dx != 0 || dy != 0 {
+            self.note("anchor:varied");
+        }
+        let (x, y) = (a.x as i32 + dx, a.y as i32 + dy);
+        let in16 = |v: i32| v >= i16::MIN as i32 && v <= i16::MAX as i32;
+        if !in16(x) || !in16(y) {
+            self.notes.overflow = true;
+        }
+        (x.clamp(i16::MIN as i32, i16::MAX as i32) as i16, y.clamp(i16::MIN as i32, i16::MAX as i32) as i16)
     }
 
     pub fn run(mut self, steps: &[Step]) -> RunResult {
@@ -299,31 +375,50 @@ impl<'a> Interp<'a> {
             }
         }
         let in16 = |v: i32| v >= i16::MIN as i32 && v <= i16::MAX as i32;
-        if self.cursive_target[i] && (v.xp != 0 || v.yp != 0) {
+        // adjusted value = static value + variation delta
+        let static_placement_zero = v.xp == 0 && v.yp == 0;
+        let (mut dxp, mut dyp) = (self.var_delta(&v.dev[0]), self.var_delta(&v.dev[1]));
+        let dxa = self.var_delta(&v.dev[2]);
+        let _ = self.var_delta(&v.dev[3]); // yAdvance: no effect in a horizontal run
+        if static_placement_zero && (dxp != 0 || dyp != 0) {
+            self.note("variation:placement-delta-on-zero-static");
+            if self.on(dev::VAR_PLACE_STATIC0) {
+                dxp = 0;
+                dyp = 0;
+            }
+        }
+        let (xp, yp, xa) = (v.xp as i32 + dxp, v.yp as i32 + dyp, v.xa as i32 + dxa);
+        if !in16(xp) || !in16(yp) || !in16(xa) {
+            self.notes.overflow = true;
+        }
+        // (a record whose static placement is non-zero but cancelled by its delta still counts
+        // as a placement operation on the glyph)
+        let touch = xp != 0 || yp != 0 || !static_placement_zero;
+        if self.cursive_target[i] && touch {
             self.notes.ambiguous.insert("cursive+placement");
         }
         let o = &mut self.out[i];
-        o.adv += v.xa as i32;
+        o.adv += xa;
         if !in16(o.adv) {
             self.notes.overflow = true;
         }
-        if v.xp != 0 || v.yp != 0 {
+        if touch {
             match &mut o.attach {
                 Attach::None => {
-                    o.dx += v.xp as i32;
-                    o.dy += v.yp as i32;
+                    o.dx += xp;
+                    o.dy += yp;
                 }
                 Attach::Mark { post, ba, .. } => {
-                    post.0 += v.xp as i32;
-                    post.1 += v.yp as i32;
+                    post.0 += xp;
+                    post.1 += yp;
                     if !in16(ba.0 as i32 + post.0) || !in16(ba.1 as i32 + post.1) {
                         self.notes.overflow = true;
                     }
                     self.notes.classes.insert("placement-after-mark-attach".into());
                 }
                 Attach::Cursive { .. } => {
-                    o.dx += v.xp as i32;
-                    o.dy += v.yp as i32;
+                    o.dx += xp;
+                    o.dy += yp;
                     self.notes.ambiguous.insert("cursive+placement");
                 }
             }
@@ -331,6 +426,7 @@ impl<'a> Interp<'a> {
     }
 
     fn attach_mark(&mut self, j: usize, base: usize, ba: &AnchorM, ma: &AnchorM) {
+        let (ba, ma) = (self.anchor_pt(ba), self.anchor_pt(ma));
         let o = &mut self.out[j];
         if o.dx != 0 || o.dy != 0 {
             self.notes.classes.insert("placement-before-mark-attach".into());
@@ -344,7 +440,7 @@ impl<'a> Interp<'a> {
         // the mark sits at base anchor - mark anchor: earlier placements no longer apply
         o.dx = 0;
         o.dy = 0;
-        o.attach = Attach::Mark { base, ba: pt(ba), ma: pt(ma), post: (0, 0) };
+        o.attach = Attach::Mark { base, ba, ma, post: (0, 0) };
     }
 
     fn lookup(&self, li: usize) -> Option<&'a Lookup> {
@@ -539,6 +635,7 @@ impl<'a> Interp<'a> {
                     if let (Some(c1), Some(c2)) = (cov.index(g1), cov.index(g2)) {
                         if let (Some(exit), Some(entry)) = (&recs[c1].1, &recs[c2].0) {
                             self.note("fired:3");
+                            let (exit, entry) = (self.anchor_pt(exit), self.anchor_pt(entry));
                             let o = &mut self.out[i];
                             if o.dx != 0 || o.dy != 0 {
                                 self.notes.ambiguous.insert("cursive+placement");
@@ -560,7 +657,7 @@ impl<'a> Interp<'a> {
                                     }
                                 }
                             }
-                            o.attach = Attach::Cursive { next: k, rtl: l.flags.rtl, exit: pt(exit), entry: pt(entry) };
+                            o.attach = Attach::Cursive { next: k, rtl: l.flags.rtl, exit, entry };
                             let t = &self.out[k];
                             if t.dx != 0 || t.dy != 0 {
                                 self.notes.ambiguous.insert("cursive+placement");
@@ -986,7 +1083,12 @@ impl<'a> Interp<'a> {
                             _ => None,
                         }
                     } else {
-                        // glyphs outside a class table are class 0
+                        // glyphs outside a class table are class 0 ("no kerning"; row 0 and
+                        // column 0 hold zeros). Whether such a pair counts as *present* in an
+                        // override / minimum subtable is not specified.
+                        if (li.is_none() || ri.is_none()) && s.coverage & (KERN_OVERRIDE | KERN_MINIMUM) != 0 && s.coverage & KERN_CROSS_STREAM == 0 {
+                            self.notes.ambiguous.insert("kern:format2-outside-class-table-in-override");
+                        }
                         let lc = li.map(|i| left[i] as usize).unwrap_or(0);
                         let rc = ri.map(|i| right[i] as usize).unwrap_or(0);
                         Some(matrix[lc][rc])
